@@ -201,6 +201,32 @@ fn roundtrip_obj<T: SerdeAPI + PartialEq>(name: &str, x: &T, fmt: &str, file: bo
         Ok(Err((stage, e))) => f.push((fail_key(&format!("second-{stage}"), name, fmt, class), format!("{name}: {}", e.chars().take(240).collect::<String>()))),
         Err(p) => f.push((format!("panic@{name}:{fmt}:{class}"), p.chars().take(200).collect())),
     }
+    // the other spellings of the same format the API advertises (`to_str` / `from_str` with "yml", ".yaml", "JSON", and
+    // `from_reader`) must read back the same object as the primary entry point
+    if !file && fmt != "bin" {
+        let want = serde_json::to_value(&r1).ok();
+        for alias in if fmt == "yaml" { ["yml", ".yaml", "YAML"] } else { ["json", ".json", "JSON"] } {
+            *checks += 1;
+            let got = guarded(|| -> Result<T, String> {
+                let s = x.to_str(alias).map_err(|e| format!("to_str: {e:#}"))?;
+                let a = T::from_str(&s, alias).map_err(|e| format!("from_str: {e:#}"))?;
+                let b = T::from_reader(std::io::Cursor::new(s.into_bytes()), alias.trim_start_matches('.').to_lowercase().as_str()).map_err(|e| format!("from_reader: {e:#}"))?;
+                if serde_json::to_value(&a).ok() != serde_json::to_value(&b).ok() {
+                    return Err("from_str and from_reader read different objects".into());
+                }
+                Ok(a)
+            });
+            match got {
+                Ok(Ok(a)) => {
+                    if serde_json::to_value(&a).ok() != want {
+                        f.push((format!("string-api-reads-a-different-object@{name}:{fmt}"), format!("{name}: to_str/from_str(\"{alias}\") differs from to_{fmt}/from_{fmt}")));
+                    }
+                }
+                Ok(Err(e)) => f.push((fail_key("load", name, fmt, class), format!("{name} via \"{alias}\": {}", e.chars().take(200).collect::<String>()))),
+                Err(p) => f.push((format!("panic@{name}:{fmt}:{class}"), p.chars().take(200).collect())),
+            }
+        }
+    }
     // (the property does not demand load(save(x)) == x field by field: loading runs `init()`, which may normalise
     // derived state such as the consist's dyn-brake capability; behavioural identity is checked through resumed runs)
     f
